@@ -140,6 +140,10 @@ def gen_world(rng, prop):
              "u0": fhex(wchoice(rng, [(0.0, 10), (0.3, 35), (-0.5, 35), (0.1, 20)])),
              "t0": fhex(t0 if (i == 0 or rng.random() < 0.7) else rng.choice([0.0, 1.0, 0.375])),
              "it": wchoice(rng, [(-1, 78), (0, 8), (5, 10), (100, 4)])}
+        if rng.random() < 0.15:
+            f["t_int"] = True      # callers write t=0 or t=1 as plain integers
+        if amp == 0.0 and rng.random() < 0.5:
+            f["scalar_init"] = True  # constant state given as scalars (expanded by fdata)
         fields.append(f)
     w["fields"] = fields
     # tick table
@@ -192,7 +196,7 @@ def gen_monspec(rng, mkind, nmax=2):
             name = "m%d_%s" % (j, typ[:3])
             e["type"] = typ
         if rng.random() < 0.85:
-            e["frequency"] = rng.choice([1, 1, 2, 3, 5, 7, 4, 10, 25])
+            e["frequency"] = rng.choice([1, 1, 2, 3, 5, 7, 4, 10, 25, 1000])
         if typ == "data_average":
             e["data"] = rng.choice(MON_DATA[mkind])
         spec[name] = e
@@ -308,7 +312,7 @@ def gen_op(rng, prop, world, idx, mask, nres_ops):
         op["np_args"] = True  # cfl / maxit / tottime handed over as numpy scalars
     pm = 0.25 if prop == "C07" else 0.45
     if "mon" in mask and rng.random() < pm:
-        op["mon"] = gen_monspec(rng, mkind, 2)
+        op["mon"] = gen_monspec(rng, mkind, 3)
         op["mon_id"] = rng.randrange(0, 3) if rng.random() < 0.4 else 100 + idx
     op["dir"] = {"dtlocal": True} if ("dtlocal" in mask and rng.random() < 0.25) else {}
     if world["mode"] == "stub" and cls in EXPLICIT and rng.random() < (0.002 if not world.get("depth") else 0.004):
@@ -351,6 +355,7 @@ def apply_template(rng, prop, world, mask, ops):
                 break
         op["op"] = kind
         op.pop("stop_share", None)
+        op.pop("tsave_share", None)
         return op
 
     def plain_final(op, n=None):
@@ -468,6 +473,13 @@ def generate(seed, prop, run, depth=0):
             op["stop_share"] = j
             op["stop"] = ops[j]["stop"]
             op["stop_kind"] = ops[j]["stop_kind"]
+        prevt = [j for j, o in enumerate(ops) if o["op"] != "step" and o.get("tsave") and "tsave_share" not in o
+                 and o.get("stop_kind") != "marathon"]
+        if op["op"] != "step" and prevt and op.get("stop_kind") != "marathon" and rng.random() < 0.2:
+            j = rng.choice(prevt)
+            op["tsave_share"] = j
+            op["tsave"] = ops[j]["tsave"]
+            op["tsave_type"] = ops[j]["tsave_type"]
         ops.append(op)
         res_ops.append(i)
     # history templates: multi-call patterns that random choice reaches too rarely
